@@ -19,15 +19,17 @@ Print Assumptions skipper_fuel_monotone.
      with property, method (with type-parameter lists), call, construct, accessor, index-signature and
      mapped-type members (+/- readonly, +/- ?, "as" clause) and ";" / "," / no
      separator; conditional types (extends operand: any union-or-higher type
-     without an exposed keyof/readonly, incl. a bare "infer U"); template-literal
-     types.
+     without an exposed keyof/readonly, incl. a bare "infer U", or
+     "infer U extends C"); template-literal types.
    For every well-formed type t, every level at which TypeScript parses t without
    parentheses, every flag set without disallowConditionalTypes and every
    following token sequence that cannot continue a type, the skipper started on
    the tokens of t followed by rest stops exactly at rest -- whether adjacent ">"
    characters were lexed as one token (mg = true: ">>", ">>>", ">=", ">>=") or not.
    Still named _partial; excluded (tied by the correspondence run only):
-     "infer U extends C" constraints; destructuring patterns as parameters;
+     "infer U extends C" elsewhere than directly as the extends operand of a
+     conditional type (e.g. inside a tuple or type-argument list there);
+     destructuring patterns as parameters;
      "asserts x [is T]" outside return positions (see skip_exact_return);
      parenthesised types whose content starts with "[" "{" "(" or keyof/readonly
      (the arrow-parameter attempt of skipTypeScriptParenOrFnType runs
